@@ -1,3 +1,4 @@
+-- CHANNEL range
 import Ccp.Wire
 import Ccp.Model.Range
 namespace Ccp.Drv.Range
